@@ -53,9 +53,10 @@ def is_system(f):
 OWN_REPORT_MODES = (None, "contextualized", "no-submission")
 
 
-def setup_report(code, filename=None, offset=0, own_report=None):
+def setup_report(code, filename=None, offset=0, own_report=None, extra_files=None):
     """own_report: None = pedal's MAIN_REPORT (the default argument of tifa_analysis); "contextualized" = a Report()
-    of our own that got the submission; "no-submission" = a bare Report() (tifa_analysis(code, report=Report()))."""
+    of our own that got the submission; "no-submission" = a bare Report() (tifa_analysis(code, report=Report())).
+    extra_files: further student files of the submission ({name: text}), importable from the main file."""
     from pedal.core.report import MAIN_REPORT, Report
     from pedal.core.commands import contextualize_report
     from pedal.core.submission import Submission
@@ -66,7 +67,11 @@ def setup_report(code, filename=None, offset=0, own_report=None):
             return report
     else:
         report = MAIN_REPORT
-    if filename is None:
+    if extra_files:
+        files = dict(extra_files)
+        files[filename or "answer.py"] = code
+        contextualize_report(Submission(files, filename or "answer.py"), report=report)
+    elif filename is None:
         contextualize_report(code, report=report)
     else:
         contextualize_report(Submission({filename: code}, filename), report=report)
@@ -1676,3 +1681,430 @@ def boundary_programs(table_progs, individually=False, full=False):
     groups = (index_fragments(full) + arity + user_arity_fragments() + unpack_fragments() + annotation_fragments()
               + receiver_fragments(table_progs) + nesting_fragments())
     return pack_fragments(groups, individually), pack_fragments(star, individually)
+
+
+# --------------------------------------------------------------------------------------------
+# SCOPE-KIND HISTORIES (round 4, seed C18_G): what ONE Tifa object / ONE report keeps between analyses
+#
+# TifaCore.reset() re-creates about fifteen per-analysis registries (scope/path/ast counters, name_map, loop_usages,
+# definition_chain, path_parents, class_scopes, module_scopes ...), all keyed by ids that restart at 0.  A registry that
+# survives an analysis is invisible unless the k-th opened scope / path of the EARLIER program differs in KIND from the
+# k-th of the LATER one and the later program contains something that kind changes (an annotated assignment, a write to a
+# global, an unused local, a branch-only assignment, a recursive call).  So: blocks that open ONE scope (or path) of a
+# known kind each, programs = 1..3 blocks in every order, histories = every ordered pair of single-block programs plus
+# random longer chains, in four spellings (tifa_analysis on MAIN_REPORT / on a report of our own with and without a
+# submission, and Tifa.process_code on one Tifa object with the first program analysed AGAIN at the end - the cache of
+# tifa_analysis would serve a repeated text).  Oracle (property text: "deterministically ... the same issues when
+# analysed again"): every step's (success, issues, feedback attached) equals what the same text gets alone on a fresh
+# report of the same kind.
+
+HISTORY_FILES = {
+    "helper.py": "VOLUME = 3\ndef shout(text):\n    loud: str = text.upper()\n    return loud\nclass Tool:\n    size: int = 1\n",
+    "tools.py": "import helper\ndef twice(value):\n    return value * 2\nlimit = twice(helper.VOLUME)\n",
+}
+
+SCOPE_BLOCKS = [
+    # (kind, needs student files, text with {n})
+    ("class/annotated-fields", False, "class Point{n}:\n    x: int = 0\n    y: int = 0\npoint{n} = Point{n}()\nprint(point{n}.x + point{n}.y)\n"),
+    ("class/plain-fields-and-method", False,
+     "class Counter{n}:\n    limit = 3\n    def __init__(self):\n        self.count = 0\n    def bump(self):\n        step: int = 1\n"
+     "        self.count = self.count + step\n        return self.count\ncounter{n} = Counter{n}()\nprint(counter{n}.bump(), counter{n}.limit)\n"),
+    ("class/dataclass", False,
+     "from dataclasses import dataclass\n@dataclass\nclass Pet{n}:\n    name: str\n    age: int\npet{n} = Pet{n}('rex', 3)\nprint(pet{n}.name, pet{n}.age)\n"),
+    ("class/empty", False, "class Marker{n}:\n    pass\nmarker{n} = Marker{n}()\nprint(marker{n})\n"),
+    ("class/nested", False, "class Outer{n}:\n    class Inner{n}:\n        depth: int = 2\n    width: int = 1\nprint(Outer{n}.width)\n"),
+    ("function/annotated-unused-local", False, "def count_up{n}():\n    count{n}: int = 0\n    return 1\nprint(count_up{n}())\n"),
+    ("function/annotated-read-local", False, "def label{n}(number: int) -> str:\n    text{n}: str = str(number)\n    return text{n}\nprint(label{n}(2))\n"),
+    ("function/unused-local", False, "def helper{n}(first):\n    spare{n} = first\n    return first\nprint(helper{n}(1))\n"),
+    ("function/write-to-global", False, "total{n} = 0\ndef add_up{n}():\n    total{n} = 5\n    return total{n}\nprint(add_up{n}(), total{n})\n"),
+    ("function/global-statement", False, "best{n} = 0\ndef record{n}(score):\n    global best{n}\n    best{n} = score\nrecord{n}(3)\nprint(best{n})\n"),
+    ("function/annotated-global", False, "level{n} = 0\ndef raise_level{n}():\n    level{n}: int = 1\n    return 2\nprint(raise_level{n}(), level{n})\n"),
+    ("function/nested", False, "def outer{n}():\n    seen{n}: int = 0\n    def inner{n}():\n        deep{n}: int = 1\n        return 2\n    return inner{n}()\nprint(outer{n}())\n"),
+    ("function/recursive", False, "def fact{n}(k):\n    if k <= 1:\n        return 1\n    return k * fact{n}(k - 1)\nprint(fact{n}(3))\n"),
+    ("function/loop-and-branch", False,
+     "def total_of{n}(items):\n    result = 0\n    for item in items:\n        if item > 1:\n            result = result + item\n    return result\nprint(total_of{n}([1, 2]))\n"),
+    ("function/never-called", False, "def idle{n}():\n    waiting{n}: int = 0\n    return 1\nprint('idle')\n"),
+    ("function/called-twice", False, "def twice{n}(a):\n    kept{n}: int = a\n    return a\nprint(twice{n}(1))\nprint(twice{n}('a'))\n"),
+    ("method/annotated-local", False,
+     "class Shape{n}:\n    def area(self):\n        side{n}: int = 2\n        return 4\nshape{n} = Shape{n}()\nprint(shape{n}.area())\n"),
+    ("lambda", False, "double{n} = lambda v: v * 2\nprint(double{n}(2))\n"),
+    ("comprehension/list", False, "squares{n} = [v * v for v in [1, 2, 3]]\nprint(squares{n})\n"),
+    ("comprehension/dict", False, "lengths{n} = {{w: len(w) for w in ['a', 'bb']}}\nprint(lengths{n})\n"),
+    ("comprehension/generator", False, "print(sum(v for v in [1, 2, 3] if v > 1))\n"),
+    ("import/student-file", True, "import helper\nprint(helper.shout('a'), helper.VOLUME)\n"),
+    ("import/from-student-file", True, "from helper import shout\nprint(shout('b'))\n"),
+    ("import/student-file-importing-another", True, "import tools\nprint(tools.twice(2))\n"),
+    ("import/student-file-after-a-call", True, "def first_of{n}(first):\n    return first\nprint(first_of{n}(1))\nimport helper\nprint(helper.shout('a'))\n"),
+    ("import/standard", False, "import math\nprint(math.sqrt(4))\n"),
+    ("import/missing", False, "import nowhere{n}\nprint(nowhere{n}.thing)\n"),
+    ("toplevel/annotated", False, "size{n}: int = 0\nlimit{n}: int = 3\nprint(limit{n})\n"),
+    ("toplevel/overwritten", False, "first{n} = 1\nfirst{n} = 2\nprint(first{n})\n"),
+    ("path/if-else", False, "answer{n} = input()\nif answer{n} == 'y':\n    reply{n} = 1\nelse:\n    reply{n} = 2\nprint(reply{n})\n"),
+    ("path/if-only", False, "answer{n} = input()\nif answer{n} == 'y':\n    found{n} = 1\nprint(found{n})\n"),
+    ("path/for", False, "for index{n} in range(3):\n    last{n} = index{n}\nprint(last{n})\n"),
+    ("path/while", False, "tries{n} = 0\nwhile tries{n} < 3:\n    tries{n} = tries{n} + 1\nprint(tries{n})\n"),
+    ("path/try", False, "try:\n    number{n} = int(input())\nexcept ValueError:\n    number{n} = 0\nprint(number{n})\n"),
+    ("path/with", False, "with open('data.txt') as handle{n}:\n    text{n} = handle{n}.read()\nprint(text{n})\n"),
+    ("undefined-name", False, "print(missing{n})\n"),
+    # analyses that FAIL (what a failed analysis leaves behind: the TifaAnalysis object, the call chain it was in)
+    ("failing/does-not-parse", False, "print(before{n})\ndef broken{n}(:\n    pass\n"),
+    ("failing/relative-import-star", False, "print(before{n})\nfrom .. import *\nprint(after{n})\n"),
+    ("failing/inside-a-call", False, "print(before{n})\ndef count_up{n}():\n    return max(*[])\nprint(count_up{n}())\n"),
+]
+HISTORY_MODES = ("MAIN_REPORT", "contextualized", "no-submission", "process_code")
+
+
+def scope_block(k, n):
+    return SCOPE_BLOCKS[k][2].format(n=n)
+
+
+def history_programs(rng, how_many):
+    """-> (single-block programs [(kind, code)], mixed programs [(kinds, code)] of 2..3 blocks in a random order)."""
+    singles = [(kind, text.format(n="")) for kind, _, text in SCOPE_BLOCKS]
+    mixed = []
+    for _ in range(how_many):
+        ks = [rng.randrange(len(SCOPE_BLOCKS)) for _ in range(rng.choice([2, 2, 3]))]
+        mixed.append(("+".join(SCOPE_BLOCKS[k][0] for k in ks), "".join(scope_block(k, "_%d" % i) for i, k in enumerate(ks))))
+    return singles, mixed
+
+
+_FRESH_STEP = {}
+
+
+def _step_record(call):
+    if "raised_class" in call:
+        return {"raised": call["raised_class"]}
+    return {"success": call["success"], "issues": call["issues"], "feedback": call["feedback"], "system": call["system"]}
+
+
+def fresh_step(code, mode, files=HISTORY_FILES):
+    """What `code` gets ALONE on a fresh report of this kind (memoised per run: fresh-report determinism itself is what
+    the rest of the search checks)."""
+    key = (code, mode)
+    if key not in _FRESH_STEP:
+        _FRESH_STEP[key] = run_history([code], mode, files)[0]
+    return _FRESH_STEP[key]
+
+
+def run_history(codes, mode, files=HISTORY_FILES):
+    """One fresh report (submission: codes[0] as main file + `files`), then every program of `codes` in order through
+    the spelling `mode`; with "process_code", the FIRST program is analysed once more at the end (B, A..., B).
+    -> one record per step: success, issues, feedback attached BY THIS STEP (on the report and on MAIN_REPORT)."""
+    from pedal.core.report import MAIN_REPORT
+    out = []
+    try:
+        report = setup_report(codes[0], None, 0, None if mode in ("MAIN_REPORT",) else
+                              ("no-submission" if mode == "no-submission" else "contextualized"),
+                              extra_files=None if mode == "no-submission" else files)
+    except BaseException as e:
+        return [{"setup_error": type(e).__name__}]
+    if mode == "process_code":
+        from pedal.tifa import Tifa
+        try:
+            tifa = Tifa(report=report)
+        except BaseException as e:
+            return [{"setup_error": "Tifa(): " + type(e).__name__}]
+        steps = list(codes) + ([codes[0]] if len(codes) > 1 else [])
+        for code in steps:
+            before = len(report.feedback) + (len(MAIN_REPORT.feedback) if report is not MAIN_REPORT else 0)
+            try:
+                t = tifa.process_code(code)
+            except BaseException as e:
+                out.append({"raised": type(e).__name__})
+                break
+            after = len(report.feedback) + (len(MAIN_REPORT.feedback) if report is not MAIN_REPORT else 0)
+            fbs = report.feedback + (MAIN_REPORT.feedback if report is not MAIN_REPORT else [])
+            out.append({"success": bool(t.success), "issues": canon_issues(t), "feedback": after - before,
+                        "system": sum(1 for f in fbs if is_system(f))})
+        # `system` is cumulative above: make it per step
+        prev = 0
+        for r in out:
+            if "system" in r:
+                r["system"], prev = r["system"] - prev, r["system"]
+        return out
+    base = _bases(report)
+    prev_fb = prev_sys = 0
+    for code in codes:
+        t, call = one_call(report, base, code, False)
+        rec = _step_record(call)
+        if "feedback" in rec:
+            rec["feedback"], prev_fb = rec["feedback"] - prev_fb, rec["feedback"]
+            rec["system"], prev_sys = rec["system"] - prev_sys, rec["system"]
+        out.append(rec)
+        if t is None:
+            break
+    return out
+
+
+def history_oracle(codes, mode, files=HISTORY_FILES):
+    """-> [(signature, what, step index)] for one history."""
+    recs = run_history(codes, mode, files)
+    bad = []
+    if recs and "setup_error" in recs[0]:
+        return bad, recs
+    steps = list(codes) + ([codes[0]] if mode == "process_code" and len(codes) > 1 else [])
+    # the gated input family gets a signature of its own, so that a record for it cannot cover the others
+    hist = "history/several-student-file-imports" if sum(1 for c in steps if _imports_student_file(c)) > 1 else "history"
+    for k, (code, rec) in enumerate(zip(steps, recs)):
+        if "raised" in rec:
+            bad.append(({"kind": "raised", "error": rec["raised"]}, "step %d of a history (%s) raised %s" % (k, mode, rec["raised"]), k))
+            break
+        alone = fresh_step(code, mode, files)
+        if "raised" in alone or "setup_error" in alone:
+            continue
+        if rec["issues"] != alone["issues"] or rec["success"] != alone["success"]:
+            only_h = [i for i in rec["issues"] if i not in alone["issues"]]
+            only_f = [i for i in alone["issues"] if i not in rec["issues"]]
+            bad.append(({"kind": "nondeterministic", "what": hist},
+                        "history (%s): program %d of %d on one %s gets other issues than alone on a fresh one (success %s/%s; only in "
+                        "the history: %s; only alone: %s)" % (mode, k + 1, len(steps), "Tifa object" if mode == "process_code" else "report",
+                                                              rec["success"], alone["success"], json.dumps(only_h)[:300], json.dumps(only_f)[:300]), k))
+        elif rec["feedback"] != alone["feedback"] or rec["system"] != alone["system"]:
+            bad.append(({"kind": "nondeterministic", "what": hist + "-feedback"},
+                        "history (%s): program %d of %d attached %d feedback object(s) (%d system), alone on a fresh report %d (%d)"
+                        % (mode, k + 1, len(steps), rec["feedback"], rec["system"], alone["feedback"], alone["system"]), k))
+    return bad, recs
+
+
+def shrink_history(codes, mode, sig, files=HISTORY_FILES):
+    """Drop programs of the history (never the last analysed one) while the signature stays."""
+    def still(cs):
+        return any(s == sig for s, _, _ in history_oracle(cs, mode, files)[0])
+    codes = list(codes)
+    changed = True
+    while changed and len(codes) > 2:
+        changed = False
+        for i in range(len(codes)):
+            cand = codes[:i] + codes[i + 1:]
+            if len(cand) >= 2 and still(cand):
+                codes, changed = cand, True
+                break
+    return codes
+
+
+def _imports_student_file(code):
+    return any(("import " + os.path.splitext(f)[0]) in code or ("from " + os.path.splitext(f)[0] + " ") in code for f in HISTORY_FILES)
+
+
+def scope_histories(rng, n_mixed, n_chains, several_student_imports=False, full=False):
+    """-> iterator of (codes, mode, description).  Every ordered pair of single-block programs (the spelling rotates
+    with the pair, so every pair of KINDS is seen in a spelling chosen by position; every pair with a class/function/
+    import block first (thorough: also function) additionally on one Tifa object), then random chains of 3..6 programs over singles + mixed.
+    several_student_imports=False (C18_STUDENT_IMPORT_HISTORIES=0; the check passes True by default): histories in which
+    MORE THAN ONE analysis imports a second student file are left out.  Before fix 458054d load_module kept the visited
+    module - with function closures over the scope ids of THAT analysis - in report[tifa]['types']['modules'], and a
+    later analysis on the same report that imported it again got write_out_of_scope/type_changes for `*return`; these
+    histories have a signature of their own (what = history/several-student-file-imports)."""
+    for codes, mode, desc in _scope_histories(rng, n_mixed, n_chains, full):
+        if not several_student_imports:
+            steps = list(codes) + ([codes[0]] if mode == "process_code" and len(codes) > 1 else [])
+            if sum(1 for c in steps if _imports_student_file(c)) > 1:
+                continue
+        yield codes, mode, desc
+
+
+def _scope_histories(rng, n_mixed, n_chains, full=False):
+    singles, mixed = history_programs(rng, n_mixed)
+    n = 0
+    for ka, a in singles:
+        for kb, b in singles:
+            if a == b:
+                continue
+            n += 1
+            yield [a, b], HISTORY_MODES[n % 3], "pair %s -> %s" % (ka, kb)
+            if ka.split("/")[0] in ("class", "method", "import") or (full and ka.split("/")[0] == "function"):
+                yield [b, a], "process_code", "pair %s, %s, %s again" % (kb, ka, kb)
+    pool = singles + mixed
+    for c in range(n_chains):
+        chain = [rng.choice(pool) for _ in range(rng.randint(3, 6))]
+        codes = []
+        for _, code in chain:
+            if code not in codes:
+                codes.append(code)
+        if len(codes) >= 2:
+            yield codes, HISTORY_MODES[c % 4], "chain " + " -> ".join(k for k, _ in chain)
+
+
+# --------------------------------------------------------------------------------------------
+# REUSE FAMILIES (round 4, seed C18_H): a value whose TYPE went through clone()/shallow_clone()/clone_mutably()/a
+# constructor/an operator is then used SEVERAL times, in every order
+#
+# Type objects are built in ~25 places from comprehensions over another type's parts (Type.clone and its overrides in
+# TypeUnion/FunctionType/ListType/TupleType/DictType/ClassType/InstanceType/ModuleType/LiteralValue, shallow_clone,
+# clone_mutably for arguments and builtin names, add_element_container_types for `+`, the 'identity' returns of
+# sorted/reversed, the_self.clone() of .copy(), as_type of annotations, zip/enumerate/items definitions).  A part kept
+# as a one-shot iterator (generator expression, zip, map, dict view of a temporary) works for the FIRST use and fails
+# for a later one, and only if the later one needs an earlier position.  So: source literal x the way its type reaches
+# the name `value` x every ordered pair (thorough: also triples) of uses - key lookups in and out of literal order,
+# loops, method calls, stores, membership, printing.  All must complete.
+
+REUSE_HEAD = "import copy\n"
+REUSE_SOURCES = {
+    "dict": ["{'apple': 3, 'pear': 5}", "{'name': 'a', 'age': 1, 'score': 2.5}", "{1: 'one', 2: 'two'}",
+             "{'in': {'x': 1, 'y': 2}, 'out': {'x': 3, 'y': 4}}", "{'k': [1, 2], 'm': [3]}", "{}"],
+    "list": ["[3, 1, 2]", "[1, 'a', 2.5]", "[(1, 'a'), (2, 'b')]", "['a', 'b']", "[[1, 2], [3]]", "[{'x': 1, 'y': 2}, {'x': 3, 'y': 4}]", "[]"],
+    "tuple": ["(1, 'a', 2.5)", "((1, 2), (3, 4))", "(1,)"],
+    "set": ["{1, 'a'}", "{1, 2}"],
+    "str": ["'ab cd'"],
+}
+# how the type reaches `value`: (name, kinds it applies to, lines before the uses, indentation of the uses, lines after)
+REUSE_PATHS = [
+    ("literal", "dict list tuple set str", ["value = {src}"], "", []),
+    ("alias", "dict list tuple set str", ["origin = {src}", "value = origin"], "", []),
+    ("copy-method", "dict list set", ["origin = {src}", "value = origin.copy()"], "", []),
+    ("copy-of-copy", "dict list set", ["origin = {src}", "value = origin.copy().copy()"], "", []),
+    ("copy.copy", "dict list tuple set", ["value = copy.copy({src})"], "", []),
+    ("copy.deepcopy", "dict list tuple set", ["value = copy.deepcopy({src})"], "", []),
+    ("constructor", "dict list tuple set str", ["origin = {src}", "value = {ctor}(origin)"], "", []),
+    ("returned", "dict list tuple set str", ["def make():", "    return {src}", "value = make()"], "", []),
+    ("returned-copy", "dict list set", ["def make(origin):", "    return origin.copy()", "value = make({src})"], "", []),
+    ("parameter", "dict list tuple set str", ["def use(value):"], "    ", ["    return value", "print(use({src}))"]),
+    ("annotated-parameter", "dict list tuple set str", ["def use(value: {ctor}):"], "    ", ["    return value", "print(use({src}))"]),
+    ("default-parameter", "dict list tuple set str", ["def use(value={src}):"], "    ", ["    return value", "print(use())"]),
+    ("parameter-called-twice", "dict list tuple", ["def use(value):"], "    ", ["    return value", "print(use({src}))", "print(use({src}))"]),
+    ("plus", "list tuple", ["origin = {src}", "value = origin + origin"], "", []),
+    ("empty-plus", "list", ["value = [] + {src}"], "", []),
+    ("times", "list tuple str", ["origin = {src}", "value = origin * 2"], "", []),
+    ("augmented-plus", "list tuple", ["value = {src}", "value += {src}"], "", []),
+    ("slice-all", "list tuple str", ["origin = {src}", "value = origin[:]"], "", []),
+    ("slice-tail", "list tuple str", ["origin = {src}", "value = origin[0:]"], "", []),
+    ("sorted", "list", ["origin = {src}", "value = sorted(origin)"], "", []),
+    ("reversed", "list", ["origin = {src}", "value = list(reversed(origin))"], "", []),
+    ("union", "set", ["origin = {src}", "value = origin | origin"], "", []),
+    ("update", "dict set", ["value = {src}", "value.update({src})"], "", []),
+    ("element-of-concatenation", "dict list tuple set", ["rows = [{src}]", "more = rows + rows", "for value in more:"], "    ", []),
+    ("element-of-concatenation-indexed", "dict list tuple set", ["rows = [{src}]", "value = (rows + rows)[0]"], "", []),
+    ("element-of-repetition", "dict list tuple set", ["rows = [{src}] * 2", "value = rows[1]"], "", []),
+    ("element-of-list-copy", "dict list tuple set", ["rows = [{src}, {src}]", "value = rows.copy()[0]"], "", []),
+    ("element-of-list-constructor", "dict list tuple set", ["rows = [{src}]", "for value in list(rows):"], "    ", []),
+    ("element-of-slice", "dict list tuple set", ["rows = [{src}, {src}]", "for value in rows[1:]:"], "    ", []),
+    ("element-of-appended", "dict list tuple set", ["rows = []", "rows.append({src})", "for value in rows:"], "    ", []),
+    ("value-of-dict-copy", "dict list tuple set", ["holder = {{'k': {src}}}", "value = holder.copy()['k']"], "", []),
+    ("value-of-dict-values", "dict list tuple set", ["holder = {{'k': {src}}}", "for value in holder.copy().values():"], "    ", []),
+    ("item-of-tuple-plus", "dict list tuple set", ["holder = ({src}, 1)", "value = (holder + holder)[0]"], "", []),
+    ("field-of-instance", "dict list tuple set", ["class Box:", "    def __init__(self):", "        self.data = {src}", "value = Box().data"], "", []),
+    ("field-of-dataclass", "dict list tuple set", ["from dataclasses import dataclass", "@dataclass", "class Box:", "    data: {ctor}",
+                                                   "value = Box({src}).data"], "", []),
+    ("comprehension-element", "dict list tuple set", ["rows = [{src}, {src}]", "for value in [row for row in rows]:"], "    ", []),
+    ("setdefault", "dict list", ["holder = {{}}", "value = holder.setdefault('k', {src})"], "", []),
+    ("get-with-default", "dict list", ["holder = {{'k': {src}}}", "value = holder.get('k', {src})"], "", []),
+    ("pop", "dict list tuple", ["rows = [{src}, {src}]", "value = rows.pop()"], "", []),
+    ("conditional", "dict list tuple set", ["value = {src} if input() else {src}"], "", []),
+    ("branches", "dict list tuple set", ["if input():", "    value = {src}", "else:", "    value = {src}"], "", []),
+]
+REUSE_QUICK_SOURCES = {"dict": 4, "list": 3, "tuple": 1, "set": 1, "str": 1}
+REUSE_CTOR = {"dict": "dict", "list": "list", "tuple": "tuple", "set": "set", "str": "str"}
+NAMESPACE_PATHS = [["alpha = 1", "beta = 'b'", "value = globals()"], ["alpha = 1", "beta = 'b'", "value = locals()"],
+                   ["alpha = 1", "beta = 'b'", "value = vars()"],
+                   ["alpha = 1", "beta = 'b'", "value = globals().copy()"]]
+
+
+def reuse_uses(kind, src, full):
+    """Single uses of `value` (each one or two lines); ordered pairs/triples are formed by the caller."""
+    try:
+        lit = ast.literal_eval(src)
+    except Exception:
+        lit = None
+    if kind == "dict":
+        keys = [repr(k) for k in lit] if lit else ["'apple'"]
+        first, last = keys[0], keys[-1]
+        uses = ["print(value[%s])" % last, "print(value[%s])" % first,
+                "for key in value:\n    print(key, value[key])", "for key, item in value.items():\n    print(key, item)",
+                "print(value.get(%s), len(value))" % last, "value[%s] = value[%s]" % (first, first)]
+        if len(keys) > 2:
+            uses.insert(1, "print(value[%s])" % keys[1])
+        if lit and isinstance(lit[next(iter(lit))], dict):
+            uses += ["print(value[%s]['y'])" % last, "print(value[%s]['x'])" % last]
+        if full:
+            uses += ["print(%s in value)" % first, "print(list(value.keys()))", "print(list(value.values()))", "print(value)",
+                     "other = value.copy()\nprint(other[%s])" % first, "del value[%s]" % last, "print(sorted(value))",
+                     "print(value.pop(%s))" % first, "value.update({%s: value[%s]})" % (last, last),
+                     "print([value[key] for key in value])", "print(missing_key if False else value[%s])" % last]
+        return uses
+    if kind in ("list", "tuple", "str"):
+        n = len(lit) if lit is not None else 2
+        uses = ["print(value[%d])" % max(n - 1, 0), "print(value[0])", "for item in value:\n    print(item)", "print(len(value), value)",
+                "print(value[-1])"]
+        if kind == "list":
+            uses += ["value.append(value[0])", "value[0] = value[%d]" % max(n - 1, 0)]
+        if kind == "tuple" and n >= 2:
+            uses += ["%s = value\nprint(p0)" % ", ".join("p%d" % i for i in range(n))]
+        if lit and isinstance(lit[0], (tuple, list)):
+            uses += ["print(value[0][1])", "print(value[0][0])", "for left, right in value:\n    print(right, left)" if len(lit[0]) == 2 else "print(value[-1][0])"]
+        if full:
+            uses += ["print(value[1:])", "print(value.count(value[0]))", "print(value.index(value[0]))", "print(value + value)",
+                     "print(value * 2)", "print(sorted(value))", "print([item for item in value])", "print(value[0] in value)",
+                     "for position, item in enumerate(value):\n    print(position, item)", "print(max(value), min(value))"]
+        return uses
+    if kind == "set":
+        uses = ["for item in value:\n    print(item)", "print(len(value), value)", "print(1 in value)", "value.add(1)", "print(sorted(value))"]
+        if full:
+            uses += ["print(value | value)", "print(value.pop())", "other = value.copy()\nprint(other)", "print(max(value))"]
+        return uses
+    return []
+
+
+def _indent(text, ind):
+    return "".join(ind + line + "\n" for line in text.split("\n"))
+
+
+SELF_STORE_SOURCES = [("{'in': {'x': 1}, 'out': {'x': 3}}", "'in'", "'new'"), ("[{'x': 1}, {'x': 2}]", "0", "1"),
+                      ("{'k': [1, 2], 'm': [3]}", "'k'", "'new'"), ("[[1, 2], [3]]", "0", "1"), ("{'a': 1}", "'a'", "'b'")]
+SELF_STORE_CLONES = ["other = value.copy()\nprint(other)", "more = [value] + [value]\nprint(more)", "print(value)",
+                     "def show(table):\n    return table\nprint(show(value))"]
+
+
+def self_store_fragments():
+    """An element read out of a container and stored back into it, then a clone (C18_SELF_STORE_REUSE=0 switches the
+    group off).  Before fix 7c87412 assign_target called set_index on the ELEMENT type instead of the container, a dict
+    element became its own value type and every later clone() of it recursed until RecursionError."""
+    frags = []
+    for src, k1, k2 in SELF_STORE_SOURCES:
+        for store in ("value[%s] = value[%s]" % (k1, k1), "inner = value[%s]\nvalue[%s] = inner" % (k1, k2),
+                      "value[%s] = value[%s]" % (k2, k1)):
+            for use in SELF_STORE_CLONES:
+                frags.append("value = %s\n%s\n%s\n" % (src, store, use))
+    return [("reuse/self-store", "", frags)]
+
+
+def reuse_fragments(full=False, self_store=False):
+    """-> [(group, head, [fragment, ...])] like the boundary families."""
+    import itertools
+    out = self_store_fragments() if self_store else []
+    for kind, sources in REUSE_SOURCES.items():
+        for src in (sources if full else sources[:REUSE_QUICK_SOURCES[kind]]):
+            uses = reuse_uses(kind, src, full)
+            n = len(uses)
+            if full:
+                # every ordered pair of the basic uses (also a use repeated), every ordered triple of the first four, every
+                # further use before and after each of the first three
+                b = len(reuse_uses(kind, src, False))
+                seqs = list(itertools.product(range(b), repeat=2)) + list(itertools.permutations(range(min(b, 4)), 3))
+                seqs += [q for e in range(b, n) for i in range(min(b, 3)) for q in ((e, i), (i, e))]
+            else:
+                # quick: every use directly followed / preceded by its neighbours in the list (the two lookups that
+                # open the list are therefore seen out of AND in literal order), a use repeated, and one long run of
+                # all uses forwards then backwards (anything one-shot is exhausted by then)
+                seqs = [(i, (i + 1) % n) for i in range(n)] + [((i + 1) % n, i) for i in range(n)] + [(0, 0), (2 % n, 2 % n)]
+                seqs.append(tuple(range(n)) + tuple(reversed(range(n))))
+            for pname, kinds, before, ind, after in REUSE_PATHS:
+                if kind not in kinds.split():
+                    continue
+                pre = "".join(l.format(src=src, ctor=REUSE_CTOR[kind]) + "\n" for l in before)
+                post = "".join(l.format(src=src, ctor=REUSE_CTOR[kind]) + "\n" for l in after)
+                frags = [pre + "".join(_indent(uses[i], ind) for i in seq) + post for seq in seqs]
+                out.append(("reuse/%s/%s/%s" % (kind, pname, src), REUSE_HEAD, frags))
+    keyuses = ["print(value['beta'])", "print(value['alpha'])", "for key in value:\n    print(key, value[key])", "print(len(value), value)",
+               "print(value.get('alpha'))", "for key, item in value.items():\n    print(key, item)"]
+    for before in NAMESPACE_PATHS:
+        pre = "".join(l + "\n" for l in before)
+        nseqs = list(itertools.permutations(range(len(keyuses)), 2))
+        if not full:
+            nseqs = [q for q in nseqs if abs(q[0] - q[1]) in (1, len(keyuses) - 1)] + [tuple(range(len(keyuses))) * 2]
+        frags = [pre + "".join(_indent(keyuses[i], "") for i in seq) for seq in nseqs]
+        out.append(("reuse/namespace/%s" % before[-1], "", frags))
+        fpre = "def inside(alpha, beta):\n" + _indent(before[-1], "    ")
+        frags = [fpre + "".join(_indent(keyuses[i], "    ") for i in seq) + "    return value\nprint(inside(1, 'b'))\n"
+                 for seq in nseqs]
+        out.append(("reuse/namespace-in-function/%s" % before[-1], "", frags))
+    return out
